@@ -651,7 +651,10 @@ if parallel.use_mpi():
         for chunk in chunk_iter:
             worker_chunk = scatter_data_chunk(comm, reader_rank, chunk)
             patches = split_into_patches(worker_chunk, patch_centers)
-            parallel.COMM.send(patches, dest=worker_config.writer_rank, tag=1)
+            # synchronous send: returns only after the writer has received the data,
+            # otherwise the end-of-queue message sent by the root rank after the
+            # barrier below may be matched by the writer first (other sender)
+            parallel.COMM.ssend(patches, dest=worker_config.writer_rank, tag=1)
 
         comm.Barrier()
 
